@@ -148,7 +148,9 @@ fn diff_obs<T: HLabel>(got: &Obs<T>, exp: &Obs<T>, check_ids: bool) -> Option<St
 }
 
 fn gen_store_ops<T: HLabel>(rng: &mut Rng, len: usize) -> Vec<Op<T>> {
-    let k = rng.range(3, 6);
+    // few labels most of the time (collisions, re-insertions); sometimes a larger universe so that
+    // per-argument attack lists grow long (with tombstones left by removed neighbours)
+    let k = if len > 100 { rng.range(8, 14) } else { rng.range(3, 6) };
     let universe: Vec<T> = (0..k).map(T::nth).collect();
     let ghost = T::nth(77);
     let mut ops = Vec::new();
@@ -220,6 +222,39 @@ fn gen_store_ops<T: HLabel>(rng: &mut Rng, len: usize) -> Vec<Op<T>> {
                 att.remove(&(a.clone(), b.clone()));
             }
         }
+        ops.push(op);
+    }
+    ops
+}
+
+/// Hub shape: one long-lived argument keeps attacking neighbours that are removed and re-added,
+/// so that its attack lists accumulate tombstones; redundant insertions and removals of the hub's
+/// attacks are frequent.
+fn gen_store_ops_hub<T: HLabel>(rng: &mut Rng, len: usize) -> Vec<Op<T>> {
+    let k = rng.range(5, 10);
+    let universe: Vec<T> = (0..k).map(T::nth).collect();
+    let hub = universe[0].clone();
+    let mut ops = vec![Op::AddArg(hub.clone())];
+    while ops.len() < len {
+        let x = universe[rng.range(1, k - 1)].clone();
+        let op = match rng.weighted(&[5, 4, 8, 2, 3, 3, 2]) {
+            0 => Op::AddArg(x),
+            1 => Op::DelArg(x),
+            2 => Op::AddAtt(hub.clone(), x),
+            3 => Op::AddAtt(x, hub.clone()),
+            4 => Op::DelAtt(hub.clone(), x),
+            5 => {
+                let y = universe[rng.below(k)].clone();
+                Op::AddAtt(x, y)
+            }
+            _ => match ops.last() {
+                Some(o) => {
+                    let o: &Op<T> = o;
+                    o.clone()
+                }
+                None => continue,
+            },
+        };
         ops.push(op);
     }
     ops
@@ -594,6 +629,8 @@ pub fn run_c12(ctx: &mut Ctx) {
         let mut rng = Rng::from_path(&[ctx.seed, 12, i]);
         let len = if ctx.tier == Tier::Thorough && i % 500 == 0 {
             2000
+        } else if rng.pct(6) {
+            rng.range(150, 400)
         } else {
             rng.range(5, 60)
         };
@@ -602,15 +639,22 @@ pub fn run_c12(ctx: &mut Ctx) {
         }
         let nwl = rng.pct(25);
         let kind = rng.below(8);
+        let hub = rng.pct(10);
         crate::report::guarded(ctx, |ctx| match kind {
             0 => eval_labelset::<usize>(ctx, &mut rng, len),
             1 => eval_labelset::<String>(ctx, &mut rng, len),
             k if k % 2 == 0 => {
-                let ops = gen_store_ops::<usize>(&mut rng, len);
+                let ops = if hub { gen_store_ops_hub::<usize>(&mut rng, len.max(80)) } else { gen_store_ops::<usize>(&mut rng, len) };
+                if hub {
+                    ctx.count("histories/hub-shape");
+                }
                 eval_store(ctx, &ops, nwl);
             }
             _ => {
-                let ops = gen_store_ops::<String>(&mut rng, len);
+                let ops = if hub { gen_store_ops_hub::<String>(&mut rng, len.max(80)) } else { gen_store_ops::<String>(&mut rng, len) };
+                if hub {
+                    ctx.count("histories/hub-shape");
+                }
                 eval_store(ctx, &ops, nwl);
             }
         });
